@@ -1,5 +1,5 @@
 \* layout scenarios with the verdict of the model of the code (default constants): esc must be 0 everywhere
-CONSTANTS TitleClean = "rooted" ExtractGuard = "reroot" LinkPolicy = "skip" DeleteValidates = TRUE MaxFull = 1 MaxCore = 1
+CONSTANTS TitleClean = "rooted" ExtractGuard = "reroot" Whiteout = "none" LinkPolicy = "skip" DeleteValidates = TRUE MaxFull = 1 MaxCore = 1
   Eps = {"lay"}
 CONSTANT WithVerdict = TRUE
 INIT Init
